@@ -263,7 +263,7 @@ def verify(ops, sut, aux, mask, cache, stats=None):
         for j, req in enumerate(reqs):
             w = {}
             for i, v in req:
-                w[i] = v
+                w[i] = int(v[1]) if isinstance(v, list) else v
             if is_select:
                 dp = dict((kv[0], kv[1]) for kv in ax["prios"]["v"][1])
                 try:
